@@ -364,6 +364,36 @@ theorem C05_full_statement_false_rewire :
     (C05_pass_converges_partial _ _ 10 _ _ _ hS hS' hL hset exFlat_graphOK hrank rfl (by decide) hfile
       (fun _ _ => rfl) (fun d hd _ => hnot d hd) hmiss hret hrew).1
 
+def kn : Key := ⟨0, "n"⟩
+
+/-- **F-C05d: the statement without `hmiss` is false.** Scripts before: `b = 1`, `e = 10`, and
+`n = 0 +S0:e` on disk but never loaded; after: `b = 2 +S0:n`, `e = 20`; both edits notified, events
+in the order `e.s`, `b.s`. Every hypothesis of `C05_pass_converges_partial` except `hmiss` holds for
+the pass `hot_reload` runs (no pending messages, local mode). The reload of `b` loads `n` for the
+first time, from the stale `e`; `e` is reloaded afterwards; `n` is not in the list (it did not exist
+when the list was sorted). After `hot_reload` returns `n` is registered and holds `10` although
+re-evaluating its loader gives `20`. -/
+theorem C05_full_statement_false_miss :
+    ∃ (env env' : Env) (fuel : Nat) (s : St) (r : RSt) (changed : List Dep) (rank : Dep → Nat),
+      env.Steady ∧ env'.Steady ∧ SameLoaders env env' ∧ Settled env fuel s r.graph ∧ GraphOK r.graph ∧
+      (∀ a rs b, r.graph.rdepsOf a = some rs → b ∈ rs → rank b < rank a) ∧
+      r.dead = false ∧ r.graph.length + 1 ≤ fuel ∧
+      (∀ id ext, Dep.file id ext ∉ changed → env'.read 0 id ext = env.read 0 id ext) ∧
+      (∀ id, Dep.dir id ∉ changed → env'.readDir 0 id = env.readDir 0 id) ∧
+      (∀ d, d ∈ changed → d ∈ r.toReload) ∧
+      s.out = [] ∧ r.static_ = false ∧
+      ¬ NoMissInPass env' fuel (updateSteps env' fuel s r) ∧
+      ReloadsReturn env' fuel (updateSteps env' fuel s r) ∧
+      NoRewireOntoPending env' fuel (updateSteps env' fuel s r) ∧
+      StaleAt env' fuel (hotReload env' fuel s r) kn ∧
+      (hotReload env' fuel s r).1.lookup kn = some ⟨.int 10, true, 0, false, 2⟩ ∧
+      reloadOut env' fuel (hotReload env' fuel s r).1 kn = .ok (.int 20) := by
+  refine ⟨exEnv [1] [10], exEnv [2, 1] [20], 10, exSt 1 10, exFlat, [.file "b" "s", .file "e" "s"], exRank,
+    exEnv_steady _ _, exEnv_steady _ _, exEnv_same _ _ _ _, settled_of_check (by decide), exFlat_graphOK,
+    rank_of_entries (by decide), rfl, by decide, exEnv_unchanged _ _ _ _, fun _ _ => rfl, by decide, rfl, rfl,
+    fun h => absurd (noMiss_check_of h) (by decide), reloadsReturn_of_check (by decide),
+    noRewire_of_check (by decide), staleAt_of_check (by decide), by decide, by decide⟩
+
 /-! Non-vacuity -/
 example : GraphOK (Graph.insertAsset [] (.asset ⟨0, "a"⟩) [.file "a" "s"]) :=
   C05_insert_keeps_inverse [] graphOK_nil _ _
